@@ -523,8 +523,13 @@ impl<C: Config, Q: Query> Snapshot<C, Q> {
                                 | ChunkedCalleeCheckDecision::Recompute,
                             )
                             | Err(_) => {
+                                // NOTE: the remaining chunks are not aborted:
+                                // they stop at the next callee boundary
+                                // (`cancelled`). Aborting them could kill a
+                                // callee in the middle of its executor, which
+                                // then had to be executed a second time in the
+                                // same epoch.
                                 found_recompute = true;
-                                chunk_handles.abort_all();
                             }
 
                             Ok(ChunkedCalleeCheckDecision::Cleaned {
